@@ -127,6 +127,30 @@ theorem pmap_refines_map (hash : κ → Nat) (e : Nat) (kvs : List (κ × γ)) :
   pmap_refines_map_from hash kvs _ _ (inv_empty hash e)
     (fun k => (get_none_iff hash _ (wf_empty hash e) k).2 (fun v => mem_empty _ k v))
 
+/-- the specification in closed form: a lookup returns the FIRST binding of the key in the history -/
+theorem spec_lookup_first (kvs : List (κ × γ)) : ∀ (s : κ → Option γ) (k : κ),
+    (kvs.foldl specAddAbsent s) k =
+      (s k).or ((kvs.find? (fun kv => decide (kv.1 = k))).map (·.2)) := by
+  induction kvs with
+  | nil => intro s k; simp
+  | cons kv kvs ih =>
+    intro s k
+    rw [List.foldl_cons, ih, List.find?_cons]
+    unfold specAddAbsent
+    by_cases hk : kv.1 = k
+    · subst hk
+      cases hs : s kv.1 <;> simp
+    · have hk' : ¬ k = kv.1 := fun h => hk h.symm
+      simp [hk, hk']
+
+/-- ... hence the codec a type is served by is the one published first for exactly that key, whatever
+    was added before or after it, however many rehashes happened, whatever collides with it -/
+theorem pmap_lookup_first (hash : κ → Nat) (e : Nat) (kvs : List (κ × γ)) (k : κ) :
+    get hash (kvs.foldl (addAbsent hash) (empty (2 ^ e) : PMap κ γ)) k =
+      (kvs.find? (fun kv => decide (kv.1 = k))).map (·.2) := by
+  rw [(pmap_refines_map hash e kvs).2 k, spec_lookup_first]
+  simp
+
 /-- the executable check that the driver applies to every table dumped from the REAL `ProgramCache`
     after a racing round (`pcrace`) is sound for the invariant of these theorems -/
 theorem invCheck_sound (hash : κ → Nat) (m : PMap κ γ) (h : invCheck hash m = true) : Inv hash m :=
